@@ -3,6 +3,7 @@ package sim
 
 import (
 	"fmt"
+	"os"
 	"sort"
 
 	"github.com/tendermint/tendermint/consensus"
@@ -715,7 +716,8 @@ func (w *world) deliverPhase(h int64, r int32, kinds map[string]bool, pat patter
 			if p.H != h || p.R != r || !kinds[p.Kind] {
 				continue
 			}
-			if !fullView && (p.Kind == "prevote" || p.Kind == "precommit") && wouldMajority(n, p) {
+			if !fullView && (p.Kind == "prevote" || (p.Kind == "precommit" && p.Block != "nil")) && wouldMajority(n, p) {
+				// (a +2/3 of nil precommits only moves the node to the next round: let it through)
 				continue
 			}
 			if !fullView && (p.Kind == "proposal" || p.Kind == "part") {
@@ -845,6 +847,11 @@ func (w *world) staleFlush(h int64, r int32) {
 		return
 	}
 	n := act[rapid.IntRange(0, len(act)-1).Draw(w.t, "stale.node")]
+	if _, ok := w.forced[fmt.Sprintf("r%d.stale", r)]; ok && w.victim >= 0 {
+		if v := w.net.Nodes[w.victim]; v != nil && v.Crashed == "" && v.RS().Height == h {
+			n = v
+		}
+	}
 	for _, p := range w.net.Deliverable(n.Key) {
 		if p.H == h && p.R < r {
 			w.net.Deliver(p, n.Key)
@@ -873,6 +880,12 @@ func (w *world) playHeight(shadow *Shadow, h int64, maxRounds int32) {
 		if len(act) == 0 {
 			return
 		}
+		_, forceStale := w.forced[fmt.Sprintf("r%d.stale", r)]
+		if r > 0 && (rapid.IntRange(0, 2).Draw(w.t, "stale") == 0 || forceStale) {
+			w.staleFlush(h, r)
+			prev = w.observe(prev)
+			w.check(shadow, "stale flush")
+		}
 		// ---- proposal phase
 		var proposer = -1
 		for _, n := range act {
@@ -889,11 +902,6 @@ func (w *world) playHeight(shadow *Shadow, h int64, maxRounds int32) {
 		prev = w.observe(prev)
 		w.fireStep(h, cstypes.RoundStepPropose)
 		w.check(shadow, fmt.Sprintf("h%d r%d proposal", h, r))
-		if r > 0 && rapid.IntRange(0, 2).Draw(w.t, "stale") == 0 {
-			w.staleFlush(h, r)
-			prev = w.observe(prev)
-			w.check(shadow, "stale flush")
-		}
 		// ---- prevote phase
 		pv := w.drawPattern(fmt.Sprintf("r%d.prevote", r), pp.group)
 		w.faultyVotes(h, r, tmproto.PrevoteType, pv, fmt.Sprintf("r%d.fpv", r))
@@ -940,6 +948,9 @@ func (w *world) structuredByzProposal(h int64, r int32, pk int, pat pattern) {
 	}
 	strat := rapid.SampledFrom([]string{"none", "new", "new", "new", "new", "reuse", "two", "two", "invalid"}).Draw(w.t, "bprop.strat")
 	if f, ok := w.forced["bprop.strat"]; ok {
+		strat = f
+	}
+	if f, ok := w.forced[fmt.Sprintf("r%d.bprop", r)]; ok {
 		strat = f
 	}
 	mk := func(i int, invalid bool) *blockInfo {
@@ -1024,8 +1035,46 @@ func RunStructured(t *rapid.T, opt Options) {
 	defer shadow.Close()
 	w := &world{victim: -1, opt: opt, t: t, s: s, net: net, blocks: map[int64][]blockInfo{}}
 	heights := rapid.IntRange(1, 2).Draw(t, "heights")
+	gadget := rapid.IntRange(0, 7).Draw(t, "stalePolkaGadget") == 0 || os.Getenv("VERIF_GADGET") != ""
+	gadgetR0 := -1
 	for h := int64(1); h <= int64(heights); h++ {
-		w.playHeight(shadow, h, rapid.Int32Range(2, 5).Draw(t, "rounds"))
+		rounds := rapid.Int32Range(2, 5).Draw(t, "rounds")
+		if gadget && h == 1 {
+			// scripted dangerous prefix "stale polka after relock": the victim locks B in r0; in r0+1 a polka for a new
+			// value forms that nobody sees completely; in r0+2 B gets a polka again (victim relocks, one other node
+			// decides); in r0+3 the victim receives the withheld r0+1 prevotes and a faulty proposer offers a new value
+			r0 := rapid.IntRange(0, 1).Draw(t, "gadgetRound")
+			gadgetR0 = r0
+			f := func(r int, k, v string) { w.forced[fmt.Sprintf("r%d.%s", r, k)] = v }
+			w.forced = map[string]string{}
+			f(r0, "prop", "all")
+			f(r0, "prevote", "victim-only")
+			f(r0, "fpv.strat", "two-faced")
+			f(r0, "precommit", "partial-all")
+			f(r0, "fpc.strat", "nil-all")
+			f(r0+1, "prop", "all")
+			f(r0+1, "bprop", "new")
+			f(r0+1, "prevote", "partial-all")
+			f(r0+1, "fpv.strat", "follow")
+			f(r0+1, "precommit", "partial-all")
+			f(r0+1, "fpc.strat", "nil-all")
+			f(r0+2, "prop", "all")
+			f(r0+2, "bprop", "reuse")
+			f(r0+2, "prevote", "all")
+			f(r0+2, "fpv.strat", "follow")
+			f(r0+2, "precommit", "one")
+			f(r0+2, "fpc.strat", "two-faced")
+			f(r0+3, "stale", "victim")
+			f(r0+3, "prop", "all")
+			f(r0+3, "bprop", "new")
+			f(r0+3, "prevote", "all")
+			f(r0+3, "fpv.strat", "follow")
+			f(r0+3, "precommit", "all")
+			f(r0+3, "fpc.strat", "follow")
+			rounds = int32(r0 + 5)
+		}
+		w.playHeight(shadow, h, rounds)
+		w.forced = nil
 		// then the network heals: everything is delivered, timeouts fire; safety must survive the catch-up
 		w.net.Heal()
 		for i := 0; i < 12; i++ {
@@ -1043,6 +1092,31 @@ func RunStructured(t *rapid.T, opt Options) {
 			w.fireAll()
 			w.check(shadow, "heal/fire")
 		}
+	}
+	if gadgetR0 >= 0 && w.victim >= 0 {
+		// how far did the scripted prefix get? (measures the generator, not the code under test)
+		v := w.net.Nodes[w.victim]
+		var lockB string
+		stage := "gadget:0-started"
+		for _, rec := range v.PV.Log {
+			if rec.H != 1 {
+				continue
+			}
+			switch {
+			case rec.Kind == "precommit" && int(rec.R) == gadgetR0 && !rec.BlockID.IsZero():
+				lockB = rec.BlockID.Key()
+				stage = "gadget:1-victim-locked"
+			case rec.Kind == "precommit" && int(rec.R) == gadgetR0+2 && lockB != "" && rec.BlockID.Key() == lockB:
+				stage = "gadget:2-victim-relocked"
+			case rec.Kind == "prevote" && int(rec.R) == gadgetR0+3 && lockB != "" && stage == "gadget:2-victim-relocked":
+				if rec.BlockID.Key() == lockB {
+					stage = "gadget:3-victim-kept-lock-after-stale-polka"
+				} else {
+					stage = "gadget:3-victim-prevoted-other-after-stale-polka"
+				}
+			}
+		}
+		lib.Class(test, stage)
 	}
 	w.finish(test, "structured", 0)
 }
